@@ -8,3 +8,8 @@ import XzVerif.Props.C03
 #print axioms Props.C03.C03_ring_literal
 #print axioms Props.C03.C03_ring_read
 #print axioms Props.C03.C03_lazy_reader_reads_every_legal_chunk_sequence
+#print axioms Props.C03.C03_source_translation_complete
+#print axioms Props.C03.C03_source_DecodeBit
+#print axioms Props.C03.C03_source_DirectDecodeBit
+#print axioms Props.C03.C03_source_newRangeDecoder
+#print axioms Props.C03.C03_source_code_lt_range
